@@ -110,6 +110,9 @@ type Result struct {
 	Events   int                    `json:"events"`
 	Trace    []map[string]interface{} `json:"-"`
 	Notes    []string               `json:"notes"`
+	// per-fork _invocation files of stages: how many were checked, which are wrong
+	InvChecked int      `json:"inv_checked"`
+	InvBad     []string `json:"inv_bad"`
 }
 
 type job struct {
@@ -1017,6 +1020,90 @@ func (d *Driver) finalSweep(ctx context.Context) {
 		"removed_files", d.removed.Files, "removed_file_bytes", d.removed.FileBytes)
 }
 
+// checkInvocations: the _invocation mrp records for every stage fork must be a
+// compiling call of that stage carrying the fork's resolved arguments (C16).
+func (d *Driver) checkInvocations() {
+	mroPath := path.Join(path.Dir(d.psdir), "mro")
+	if d.spec.PhysPaths {
+		mroPath = path.Join(path.Dir(path.Dir(d.psdir)), "mro")
+	}
+	// the driver keeps definitions and the top-level call in one file; a recorded
+	// invocation includes that file, so compile it against the definitions alone
+	defs := d.spec.Mro
+	if i := strings.LastIndex(defs, "\ncall "); i >= 0 {
+		defs = defs[:i+1]
+	}
+	defsDir, err := os.MkdirTemp(path.Dir(d.psdir), "defs")
+	if err != nil {
+		return
+	}
+	defer os.RemoveAll(defsDir)
+	writeFile(path.Join(defsDir, "p.mro"), []byte(defs))
+	mroPath = defsDir
+	for _, f := range d.ps.VerifForks() {
+		b, err := os.ReadFile(path.Join(f.Path, "_invocation"))
+		if err != nil {
+			continue // the fork never got as far as being invoked
+		}
+		inst := d.instName(f)
+		inv := d.byKey[inst+"/split/0"]
+		if inv == nil {
+			inv = d.byKey[inst+"/main/0"]
+		}
+		if inv == nil {
+			continue
+		}
+		d.res.InvChecked++
+		bad := func(why string) {
+			d.res.InvBad = append(d.res.InvBad, inst+": "+why+" | "+strings.ReplaceAll(string(b), "\n", " "))
+		}
+		var p syntax.Parser
+		if _, _, _, err := p.ParseSourceBytes(b, path.Join(f.Path, "_invocation"), []string{mroPath}, false); err != nil {
+			bad("does not compile: " + err.Error())
+			continue
+		}
+		data, err := core.InvocationDataFromSource(b, []string{mroPath})
+		if err != nil {
+			bad("cannot be read back: " + err.Error())
+			continue
+		}
+		callPath := strings.Split(strings.TrimPrefix(f.Node, "ID."+d.psid+"."), ".")
+		if want := d.calleeOf(callPath); want != "" && data.Call != want {
+			bad("calls " + data.Call + ", the stage is " + want)
+		}
+		pred, _ := Untag(inv.Args)
+		act := map[string]interface{}{}
+		for k, v := range data.Args {
+			var x interface{}
+			json.Unmarshal(v, &x)
+			act[k] = x
+		}
+		if pm, ok := pred.(map[string]interface{}); ok {
+			delete(pm, "ci")
+			if !SameLax(pm, act, d.resolve) {
+				bad("arguments " + Canon(act) + ", the fork's resolved arguments are " + Canon(Resolve(pm, d.resolve)))
+			}
+		}
+	}
+}
+
+var callRe = regexp.MustCompile(`(?m)^\s*(?:map )?call (\w+)(?: as (\w+))?\(`)
+
+// calleeOf: the callable a call path ends in (from the source text)
+func (d *Driver) calleeOf(callPath []string) string {
+	last := callPath[len(callPath)-1]
+	for _, m := range callRe.FindAllStringSubmatch(d.spec.Mro, -1) {
+		id := m[2]
+		if id == "" {
+			id = m[1]
+		}
+		if id == last {
+			return m[1]
+		}
+	}
+	return ""
+}
+
 func (d *Driver) finish(ctx context.Context) {
 	res := d.res
 	if res.State == string(core.Failed) {
@@ -1056,6 +1143,7 @@ func (d *Driver) finish(ctx context.Context) {
 		d.finalSweep(ctx)
 	}
 	res.ForkDirs = d.ps.VerifForkDirs()
+	d.checkInvocations()
 	// every job directory that has a _jobinfo
 	filepath.Walk(d.psdir, func(p string, info os.FileInfo, err error) error {
 		if err == nil && !info.IsDir() && info.Name() == "_jobinfo" {
